@@ -63,3 +63,47 @@ void h_mser_arr(void) {
   for (unsigned k = 0; k < sizeof buf; k++) { if (k >= 4 && k < 4 + (len < cap ? len : cap)) VASSERT(buf[k] == ref[k - 4], "stored bytes are the prefix of the reference encoding (elements in order)"); else VASSERT(buf[k] == G, "nothing else is written (no terminator for binary output)"); }
   if (cap < len) VWITNESS("truncated"); else VWITNESS("fits");
 }
+
+#ifndef BN
+#define BN 3
+#endif
+/* ---- C08: bin / ext values set through the API are emitted with a conforming header and verbatim payload */
+void h_bin(void) {
+  uint8_t p[4] = {vin_u8(), vin_u8(), vin_u8(), vin_u8()}; const uint64_t n = BN;   /* the size is part of the shape */
+  uint8_t out[16]; memset(out, G, 16); struct S_Ser r; memset(&r, 0, sizeof r); uint64_t backn = 0; uint8_t back[4] = {0};
+  w_bin(p, n, out + 2, 12, &r, &backn, back);
+  VASSERT(r.f0 == n + 2 && r.f1 == n + 2, "bin8: two header bytes + payload; count == measure");
+  VASSERT(out[2] == 0xC4 && out[3] == n, "bin8 header with the payload length");
+  for (unsigned i = 0; i < 4; i++) if (i < n) { VASSERT(out[4 + i] == p[i], "payload verbatim"); VASSERT(back[i] == p[i], "as<MsgPackBinary>() returns the same bytes"); }
+  VASSERT(backn == n, "as<MsgPackBinary>() returns the same size");
+  VASSERT(out[1] == G && out[4 + n] == G, "nothing else written"); VWITNESS("any");
+}
+void h_ext(void) {
+  uint8_t p[4] = {vin_u8(), vin_u8(), vin_u8(), vin_u8()}; const uint64_t n = BN; uint8_t type = vin_u8();
+  uint8_t out[16]; memset(out, G, 16); struct S_Ser r; memset(&r, 0, sizeof r);
+  w_ext(type, p, n, out + 2, 12, &r);
+  /* fixext 1/2/4 for these sizes, ext8 otherwise (sizes 0 and 3) */
+  unsigned hdr = (n == 1 || n == 2 || n == 4) ? 2 : 3;
+  VASSERT(r.f0 == hdr + n && r.f1 == hdr + n, "ext: header + type + payload; count == measure");
+  if (hdr == 2) { VASSERT(out[2] == (n == 1 ? 0xD4 : n == 2 ? 0xD5 : 0xD6) && out[3] == type, "fixext header and type"); }
+  else { VASSERT(out[2] == 0xC7 && out[3] == n && out[4] == type, "ext8 header, length and type"); }
+  for (unsigned i = 0; i < 4; i++) if (i < n) VASSERT(out[2 + hdr + i] == p[i], "payload verbatim");
+  VASSERT(out[1] == G && out[2 + hdr + n] == G, "nothing else written"); VWITNESS("any");
+}
+
+/* ---- C02: serializeJsonPretty([i,["s0"],[]]): CRLF + two-space indentation per level, empty array as [], same tokens as
+ * the compact form; count == measureJsonPretty == length; prefix/guard/NUL discipline for every capacity */
+void h_pretty(void) {
+  int32_t i = (int32_t)vin_u8() - 128; uint8_t s[1] = {vin_u8()};
+  uint8_t ref[64]; unsigned len = 0;
+#define LIT(str) do { const char* q__ = str; while (*q__) ref[len++] = (uint8_t)*q__++; } while (0)
+  LIT("[\r\n  "); len += put_int(ref + len, i); LIT(",\r\n  [\r\n    "); len += put_str(ref + len, s, 1); LIT("\r\n  ],\r\n  []\r\n]");
+  uint32_t cap = vin_u8(); VASSUME(cap <= len + 2);
+  uint8_t buf[72]; memset(buf, G, sizeof buf); struct S_Ser r; memset(&r, 0, sizeof r);
+  w_pretty_nested((uint32_t)i, s, 1, buf + 4, cap, &r);
+  VOBS(r.f2); VOBS(r.f3); VOBSB(buf, 64);
+  check_buf(buf, sizeof buf, 4, cap, ref, len, r.f2, r.f3);
+  /* compact length = pretty length minus the insignificant whitespace: 6 CRLF (12) + indentation 2+2+4+2+2 (12) */
+  VASSERT(r.f1 + 24 == r.f3, "pretty and compact texts differ only by insignificant whitespace (length check)");
+  if (cap < len) VWITNESS("truncated"); else VWITNESS("fits");
+}
